@@ -429,7 +429,7 @@ func TestC10(t *testing.T) {
 
 func init() {
 	Describe("C10",
-		"cases: a history of 2-12 events drawn from {version marker, replacing local symbol table (0-2 imports by name/version with max_id absent / 0 / exact / smaller / larger, names present in the catalog at the exact, a newer, an older or no version; 0-4 local symbols incl. duplicates and undefined slots; optional open content and field order), appending table (imports:$ion_symbol_table), user value whose symbols / field names / annotations are drawn from the table in force (by any of the IDs carrying the text, or an undefined slot, or $0), a symbol-table-shaped struct nested in a list, a top-level one whose $ion_symbol_table annotation is not the first} rendered in binary (reference encoder) or text (reference printer, 50% of symbols as $n), with a catalog of 0-3 shared tables in 1-2 versions (gaps allowed). Non-trivial: at least two context changes and at least one symbol read. Distinct by digest(bytes, catalog).",
+		"cases: a history of 2-12 events drawn from {version marker, replacing local symbol table (0-2 imports by name/version with max_id absent / 0 / exact / smaller / larger, names present in the catalog at the exact, a newer, an older or no version; 0-4 local symbols incl. duplicates and undefined slots; optional open content and field order), appending table (imports:$ion_symbol_table), user value whose symbols / field names / annotations are drawn from the table in force (by any of the IDs carrying the text, or an undefined slot, or $0), a symbol-table-shaped struct nested in a list, a top-level one whose $ion_symbol_table annotation is not the first} rendered in binary (reference encoder) or text (reference printer, 50% of symbols as $n), with a catalog of 0-3 shared tables in 1-2 versions (gaps allowed), handed to the reader through NewReaderCat (half) or System.NewReader / NewReaderBytes / NewReaderString. Non-trivial: at least two context changes and at least one symbol read. Distinct by digest(bytes, catalog).",
 		"oracle: reference model: the reference decoder's resolution of the same bytes (cross-checked in the generator against a running ID-space model; a disagreement aborts with exit 2); ion-go must return the same values (symbol, field-name and annotation text; unknown text where the slot is undefined), the same number of user values (tables and markers never surface, a nested table-shaped struct does), Reader.SymbolTable().MaxID() equal to the model's after every value, and an error exactly when an import has no usable max_id and no exact catalog match",
 		"not generated (spec undecided / ion-go documents an error): duplicate imports or symbols fields, typed nulls in table fields (C06), max_id above 2^24, versions above 3",
 	)
